@@ -8,7 +8,7 @@ Separate Extraction
   tfdt traf mdat frag op oclass dfrag
   create_fragment create_multi with_extras step run_ops encode_frag encoded_len moof_size md_header_size
   set_offsets decoded_view get_full_samples
-  rd32 enc_trun enc_tfhd dec_trun dec_tfhd enc_moof
+  rd32 enc_trun enc_trun_body trun_size enc_tfhd dec_trun dec_tfhd enc_moof
   xkind sref xbox tbox eitem dfr dseg fstate item_framed seg_stream seg_decode file_frags seg_read xsum seg_get_full wire_trafs
   next_box dec_moof dec_top T_MOOF enc_mdat enc_fragment
   child lop lstate add_emsg add_emsg_pinned add_child pre_of post_of run_lops l_sync l_start.
